@@ -699,6 +699,13 @@ func (c *PolyCtx) of(v ssa.Value) Poly {
 				return c.lenOf(x.Call.Args[0])
 			case "cap":
 				return c.opaque("cap", v, c.sliceSym(x.Call.Args[0]))
+			case "Sizeof":
+				// not folded by the compiler front end inside an instantiated generic function
+				if t := x.Call.Args[0].Type(); t != nil {
+					if _, isTP := t.(*types.TypeParam); !isTP {
+						return polyConst(types.SizesFor("gc", "amd64").Sizeof(t))
+					}
+				}
 			case "max", "min":
 				if c.G && isIntLike(x.Type()) {
 					var as []Poly
@@ -1042,6 +1049,11 @@ func cellValue(a *ssa.Alloc) (ssa.Value, bool) {
 					return false
 				}
 			case *ssa.DebugRef:
+			case *ssa.FieldAddr, *ssa.IndexAddr:
+				// parts of a struct / array variable: read only as well
+				if !readOnly(x.(ssa.Value), depth+1) {
+					return false
+				}
 			case *ssa.Store:
 				if x.Addr != v || v != ssa.Value(a) || st != nil {
 					return false
